@@ -159,7 +159,7 @@ func labelScalar(r *h.Rec, what string, k []byte) bool {
 
 // ---------------------------------------------------------------- element helpers
 
-// must32 returns [k]Gen1 from the library for a 32-byte scalar.
+// libG1Base / libG2Base return [k]Gen from the library for a 32-byte scalar.
 func libG1Base(k []byte) (*vh.G1, error) { return new(vh.G1).ScalarBaseMult(k) }
 func libG2Base(k []byte) (*vh.G2, error) { return new(vh.G2).ScalarBaseMult(k) }
 
